@@ -27,8 +27,14 @@ class Ctx:
 # ----------------------------------------------------------------------------- W0 / W1
 def plumbing(fw, extra=""):
     """W1: imports at the top of a woven file"""
+    fw._plumbed = True
     first = min((n["span"][0] for n in fw.nodes if n["parent"] == -1), default=0)
-    fw.insert(first, "#[allow(unused_imports)] use vstd::prelude::*;\n#[allow(unused_imports)] use crate::verif_specs::*;\n#[allow(unused_imports)] use crate::verif_prelude::*;\nverus!{ broadcast use crate::verif_prelude::group_pyxis_axioms; }\n" + extra, rule="W1")
+    fw.insert(first, "#[allow(unused_imports)] use vstd::prelude::*;\n#[allow(unused_imports)] use crate::verif_specs::*;\n#[allow(unused_imports)] use crate::verif_prelude::*;\nverus!{ broadcast use {crate::verif_prelude::group_pyxis_axioms, crate::verif_specs::group_path_axioms}; }\n" + extra, rule="W1")
+
+
+def plumbing_once(fw):
+    if not getattr(fw, "_plumbed", False):
+        plumbing(fw)
 
 
 def drop_test_mods(fw):
@@ -307,7 +313,8 @@ def for_to_index_loop(ctx, fw, unit, loopnode, seq, ivar, enumerate_=False, zip_
     if not enumerate_ and zip_with is None:
         ok = ["&" + s_ns, s_ns, s_ns + ".iter()"]
         if s_ns.endswith(".0"):
-            ok.append("&" + s_ns[:-2])   # R-intoiter: <&Attributes as IntoIterator>::into_iter is self.0.iter()
+            ok.append("&" + s_ns[:-2])
+            ok.append(s_ns[:-2])   # R-intoiter: <&Attributes as IntoIterator>::into_iter is self.0.iter()
             g = fw.weave.file("grammar.rs")
             if b"impl<'a> IntoIterator for &'a Attributes" not in g.src or b"self.0.iter()" not in g.src:
                 raise WeaveError("R-intoiter: grammar.rs no longer defines <&Attributes>::into_iter as self.0.iter()")
@@ -413,3 +420,18 @@ def hoist_fn(ctx, fw, inner_qual, target):
     fn = fw.fn(inner_qual)
     fw.move(fn["span"][0], fn["span"][1], target, pre="verus!{\n", suf="\n} // verus!\n", rule="W4", what="fn " + inner_qual)
     return fn
+
+
+def from_impl_into_verus(ctx, fw, src_ty, dst_ty, spec_expr, tags=()):
+    """a `impl From<S> for D` becomes verified: the impl moves into verus!{} and a ghost
+    `FromSpecImpl` states the conversion (vstd checks the body of `from` against it)."""
+    ims = fw.impls(dst_ty, "From<%s>" % src_ty)
+    if len(ims) != 1:
+        raise WeaveError("%s: impl From<%s> for %s found %d times" % (fw.rel, src_ty, dst_ty, len(ims)))
+    im = ims[0]
+    fw.insert(im["span"][0], "verus!{\nimpl vstd::std_specs::convert::FromSpecImpl<%s> for %s {\n    open spec fn obeys_from_spec() -> bool { true }\n    open spec fn from_spec(v: %s) -> %s { %s }\n}\n" % (src_ty, dst_ty, src_ty, dst_ty, spec_expr), rule="W3")
+    fw.insert(im["span"][1], "\n} // verus!\n", rule="W3")
+    fns = [n for n in fw.nodes if n["kind"] == "fn" and fw._impl_of(n) is im]
+    unit = "%s::<From<%s> for %s>::from" % (fw.rel[:-3].replace("/mod", "").replace("/", "::"), src_ty, dst_ty)
+    ctx.units[unit] = {"unit": unit, "file": fw.rel, "fn": "<From<%s> for %s>::from" % (src_ty, dst_ty), "mode": "V", "tags": sorted(tags), "span": fns[0]["span"],
+                       "line": fw.line_of(fns[0]["span"][0]), "end_line": fw.line_of(fns[0]["span"][1]), "verus_name": None}
